@@ -55,6 +55,11 @@ fn panic_catcher_stop_catching() {
     });
 }
 
+#[cfg(feature = "verif-hooks")]
+pub(crate) fn verif_level() -> u64 {
+    PANIC_CATCHER_LEVEL.with(|b| b.get())
+}
+
 /// Retrieves the backtrace stored during the last panic
 /// for the current thread.
 pub fn panic_catcher_get_backtrace() -> Option<String> {
